@@ -243,6 +243,9 @@ def projection_identity(label, m, elabel, e, rng, fails, curved=False):
         out = np.setdiff1d(np.arange(basis.N), I)
         if len(out) and np.abs(z[out]).max() > 0:
             fails.append("PROJECT-SUBDOMAIN: DOFs outside the subdomain are not zero")
+        z = basis.project(basis.interpolate(y))
+        if not np.allclose(z, y, atol=1e-8 * max(1, np.abs(y).max())):
+            fails.append("PROJECT-HISTORY: the whole-mesh projection with the SAME basis object after project(.., elements=..) differs from y by %.3e" % np.nanmax(np.abs(z - y)))
         bs = fem.CellBasis(m, e, elements=sub)
         z2 = bs.project(bs.interpolate(y))
         if not np.allclose(z2[I], y[I], atol=1e-8):
